@@ -83,7 +83,9 @@ NUMERAL = re.compile(r'[ \t\n\r]*[+-]?[0-9]+[ \t\n\r]*\Z')
 
 def exact(x, kind=None):
     """argument of the exact type the Lean driver's line protocol carries (str for the nickname, int everywhere else)"""
-    return type(x) is (str if kind == 'wn' else int)
+    if kind == 'wn':      # the line protocol (and the Lean models' ASCII strip) carry ASCII nicknames only
+        return type(x) is str and all(ord(c) < 128 for c in x)
+    return type(x) is int
 
 
 def plain_ops(ops):
@@ -389,7 +391,8 @@ def clamp(r):
 
 
 def py_strip(s):
-    return s.strip(PY_SPACE)
+    """what the library's `nickname.strip()` does (Python's own notion of whitespace; for ASCII text = PY_SPACE)"""
+    return s.strip() if any(ord(c) > 127 for c in s) else s.strip(PY_SPACE)
 
 
 class Ref:
@@ -459,7 +462,8 @@ def printable(s):
 
 def nick_ok(s):
     t = py_strip(s)
-    return all(ord(c) < 128 for c in s) and printable(t) and len(t) <= 16 and 'Err:' not in t
+    # the TRIMMED name must be ASCII; Unicode whitespace padding that strip() removes is allowed (typed cases, oracle only)
+    return all(ord(c) < 128 for c in t) and printable(t) and len(t) <= 16 and 'Err:' not in t
 
 
 def op_in_domain(op):
@@ -941,6 +945,10 @@ def build_cases(ctx):
     # 3t. nicknames given as a str subclass
     for n in ['', ' ', 'AxiDraw 1', '  both  ', 'x' * 16, ' ' + 'y' * 16 + ' '] + [rand_nick(rng) for _ in range(ctx.n(40))]:
         cases.append((ok_py, rand_board(rng), [('wn', StrSub(n)), ('qn',)], 'nick-typed'))
+    # 3u. nicknames padded with Unicode whitespace that str.strip() removes (NBSP, NEL, EM SPACE, IDEOGRAPHIC SPACE): read back trimmed
+    for n in ['Bob', 'AxiDraw 1', '', 'x' * 16] + [py_strip(rand_nick(rng)) for _ in range(ctx.n(20))]:
+        for l, r_ in (('\xa0', '\xa0'), ('\x85', ''), ('', '\u2003'), ('\u3000 ', ' \xa0')):
+            cases.append((ok_py, rand_board(rng), [('wn', 'previous'), ('wn', l + n + r_), ('qn',)], 'nick-typed'))
     # 4t. random operation sequences with typed arguments on one object
     for _ in range(ctx.n(300)):
         ops = [rand_op_typed(rng) for _ in range(rng.randint(3, 20))]
